@@ -710,6 +710,29 @@ func check(h hist, r *fw.R, withKey bool) {
 		c.fail("dashes-mutated-in-place", strings.Join(c.d5, " | "))
 	}
 
+	// run C: the same history on another Canvas that is rendered after every call (previews
+	// between the calls must not change what the final rendering replays: a Canvas may not keep
+	// anything derived from its layers across renderings that later calls invalidate)
+	if replayOK {
+		cvC := canvas.New(canvasW, canvasH)
+		xc := &exec{ctx: canvas.NewContext(cvC)}
+		for _, l := range seq {
+			letters[l].real(xc)
+			cvC.RenderTo(&recorder{w: canvasW, h: canvasH})
+		}
+		for _, p := range xc.paths {
+			p.LineTo(9, 9)
+		}
+		got := replay(cvC)
+		same := len(got) == len(list0)
+		for i := 0; same && i < len(got); i++ {
+			same = eqCall(got[i], list0[i])
+		}
+		if !same {
+			c.fail("replay-after-previews", fmt.Sprintf("a Canvas that was rendered after every call replays %d calls at the end, the same history without intermediate renderings %d; with previews:%s\n  without:%s", len(got), len(list0), listString(got), listString(list0)))
+		}
+	}
+
 	if withKey {
 		r.Nontrivial(stateKey(m, recA.calls))
 	}
